@@ -466,6 +466,8 @@ def run(cx, tier='quick'):
             rep.checked.append((r, i, v))
             k += 1
     rep.counts['HELP'] = k
+    from .helpers import check_ident_or_index
+    check_ident_or_index(cx, rep)
     rep.floor('SUM-ORD', 7)
     rep.floor('SCAN', 16)
     rep.floor('HELP', 6)
